@@ -57,7 +57,7 @@ def crash_key_of(text):
             # the payload is the user's text and may itself contain backticks
             msg = msg.split(" of `")[0].split("; it is inside")[0]
         msg = re.sub(r"`[^`]*`", "`_`", msg)
-        msg = re.sub(r"^[\w:#<>.]+ #\d+ : ", "", msg)
+        msg = re.sub(r"^@?[\w:#<>.]+ (expr )?#\d+ (: )?", "", msg)
         # long type dumps: keep the leading sentence
         msg = re.split(r"[:{(]", msg, 1)[0] if len(msg) > 80 else msg
         return f"crash:{loc}:{normalise_msg(msg)}"
